@@ -298,6 +298,15 @@ def _edge_rows(ctx):
             out.append(undecided(R, key, 'a pool thread is created here but not pushed on a thread table in this function'))
             continue
         bad_ = [bb for bb, t in news if t['target'] is not None and not fn.must_pass(t['target'], set(fn.exits()), set(pushes))]
+        # the new thread enters the table as idle: its busy flag is a fresh `false`
+        flags = []
+        for pb in pushes:
+            pe = fn.expr_of_operand(fn.blocks[pb]['term']['args'][1]) if len(fn.blocks[pb]['term']['args']) > 1 else None
+            if pe is not None and pe[0] == 'agg' and pe[3]:
+                flags.append(render(pe[3][0]))
+        wrong = [f_ for f_ in flags if not f_.replace(' ', '').endswith('new(new(0))')]
+        if wrong and not bad_:
+            out.append(bad(R, key + '|idle', 'a new pool thread is entered in the table with a busy flag that is not a fresh `false` (%s): it is never offered work' % wrong[0][:50], loc=fn.loc(pushes[0]), fn=fn.name))
         if bad_:
             out.append(bad(R, key, 'a pool thread can be created and not entered in the thread table: it is never given work, never counted against the maximum and never despawned', loc=fn.loc(bad_[0]), fn=fn.name))
         else:
